@@ -737,6 +737,8 @@ def synth_specs(assets, caps):
     if "MAX_NB_VERSION_INFOS" in c:
         for n in around(c["MAX_NB_VERSION_INFOS"], c["MAX_NB_VERSION_INFOS"] + 7232):
             S.append(("pe_version_infos_%d" % n, (lambda n=n: pe_with_version_infos(n)), "pe", "version_info_list", n))
+    for k in ((64, 32, 32), (64, 32, 33), (41, 41, 41), (40, 40, 41), (40, 40, 40), (255, 257, 1), (1, 257, 255), (300, 300, 1)):
+        S.append(("pe_shared_resources_%dx%dx%d" % k, (lambda k=k: pe_with_shared_resources(*k)), "pe", "resources", k[0] * k[1] * k[2]))
     signed = sorted(a for a in assets if "/pe/signed/" in a[0])
     if signed:
         sb = signed[0][1]
@@ -1832,3 +1834,61 @@ def truncation_sweep(b, kind, light=False):
             cuts.add(x)
     for c in sorted(x for x in cuts if 0 < x < len(b)):
         yield ("truncated at %d of %d" % (c, len(b)), {"op": "trunc", "len": c})
+
+
+def pe_with_shared_resources(k1, k2, k3):
+    """resource tree whose sub-directories are SHARED: k1 types all pointing at one name directory of k2 entries, all
+    pointing at one language directory of k3 entries, all pointing at one data entry: k1*k2*k3 leaves in ~1 KB"""
+    d1 = 0
+    d2 = 16 + 8 * k1
+    d3 = d2 + 16 + 8 * k2
+    de = d3 + 16 + 8 * k3
+    sec = bytearray(de + 16 + 16)
+    for base, k, nxt, sub in ((d1, k1, d2, True), (d2, k2, d3, True), (d3, k3, de, False)):
+        struct.pack_into("<HH", sec, base + 12, 0, k)
+        for j in range(k):
+            struct.pack_into("<II", sec, base + 16 + 8 * j, j + 1, (0x80000000 | nxt) if sub else nxt)
+    struct.pack_into("<IIII", sec, de, 0x1000 + de, 4, 0, 0)
+    return _pe32(bytes(sec), {2: (0x1000, len(sec))})
+
+
+I64_EXTREMES = [-(1 << 63), -(1 << 63) + 1, -(1 << 32), -2, -1, 0, 1, 2, (1 << 31) - 1, 1 << 31, (1 << 32) - 1, 1 << 32,
+                (1 << 63) - 2, (1 << 63) - 1]
+
+
+def _lit(z):
+    if z == -(1 << 63):
+        return "(-9223372036854775807 - 1)"
+    return str(z) if z >= 0 else "(%d)" % z
+
+
+def function_extreme_rules(info, module):
+    """For every static function of `module` and every accepted argument list with an integer parameter: one rule per
+    extreme value (all integer parameters := v; and the first := v, the others := 0), other parameters get a sample.
+    pe additionally: every integer-taking function at the values just below / at / just above each section's virtual
+    and raw start and end, taken from the module's own values."""
+    sample = {"bytes": '"a"', "regex": "/a/", "float": "0.5", "boolean": "true"}
+    rules = []
+    for name, args, ret in info["static_functions"].get(module, []):
+        for alt in args:
+            ints = [i for i, a in enumerate(alt) if a["t"] == "integer"]
+            if not ints:
+                continue
+            for v in I64_EXTREMES:
+                for mode in ("all", "first"):
+                    if mode == "first" and len(ints) < 2:
+                        continue
+                    vals = []
+                    for i, a in enumerate(alt):
+                        if a["t"] == "integer":
+                            vals.append(_lit(v if (mode == "all" or i == ints[0]) else 0))
+                        else:
+                            vals.append(sample[a["t"]])
+                    rules.append("defined %s.%s(%s)" % (module, name, ", ".join(vals)))
+            if module == "pe":
+                for fld in ("virtual_address", "raw_data_offset"):
+                    szf = "virtual_size" if fld == "virtual_address" else "raw_data_size"
+                    for d in ("- 1", "+ 0", "+ 1", "+ s.%s - 1" % szf, "+ s.%s" % szf, "+ s.%s + 1" % szf):
+                        vals = [("s.%s %s" % (fld, d)) if a["t"] == "integer" else sample[a["t"]] for a in alt]
+                        rules.append("for any s in pe.sections : (defined %s.%s(%s))" % (module, name, ", ".join(vals)))
+    return rules
